@@ -283,6 +283,10 @@ inline int sym_main (int argc, char** argv)
         // Lean-side emitter validation: print cases (inputs + exact results of the extracted tree at Frac)
         unsigned long seed = argc > 2 ? strtoul (argv[2], 0, 10) : 1;
         int           n    = argc > 3 ? atoi (argv[3]) : 6;
+        // optional `--den D`: every input is k/D with k in [-D-1, D+1] (C18: candidates of the unit-ball samplers; the default
+        // integers in [-4,4] are almost always rejected by them)
+        long fixedDen = 0;
+        for (int q = 1; q + 1 < argc; ++q) if (std::string (argv[q]) == "--den") fixedDen = atol (argv[q + 1]);
         std::mt19937_64 g (seed);
         for (size_t i = 0; i < entries ().size (); ++i)
         {
@@ -306,6 +310,11 @@ inline int sym_main (int argc, char** argv)
                 std::vector<Frac> in;
                 for (size_t j = 0; j < nin; ++j)
                 {
+                    if (fixedDen > 0)
+                    {
+                        in.push_back (Frac ((I128) ((long) (g () % (unsigned long) (2 * fixedDen + 3)) - (fixedDen + 1)), (I128) fixedDen));
+                        continue;
+                    }
                     long a = (long) (g () % 9) - 4;
                     long d = (k % 3 == 2) ? (long) (g () % 3) + 1 : 1;
                     if (k % 3 == 1 && g () % 3 == 0) a = 0;
